@@ -14,17 +14,21 @@ from ..ref import ref_der as rd
 PROPERTY = "C05"
 LEVEL = "model_checking"
 
-D_LOCAL = {"c1": 3, "c2": 4}
-D_REMOTE = {"c1": 5, "c2": 6}
+D_LOCAL = {"c1": 3, "c2": 4, "c3": 7}
+D_REMOTE = {"c1": 5, "c2": 6, "c3": 8}
 D_GEN = 9          # what the scripted urandom makes generate_private_key draw
 
 
 def two_curves():
-    """c1: 2-byte field; c2: 3-byte field (so that secrets, keys and scalars
-    have different byte lengths on the two curves)"""
     a = catalog.first("h1", "p2byte", "n>p")
-    b = catalog.first("h1", "pbits17")
+    b = catalog.first("h1", "p2byte", "n<p")
     return a, b
+
+
+def third_curve():
+    """3-byte field: secrets, keys and scalars have other byte lengths than
+    on c1 / c2"""
+    return catalog.first("h1", "pbits17")
 
 
 class World(object):
@@ -35,7 +39,7 @@ class World(object):
     def __init__(self):
         from ecdsa.keys import SigningKey
         ta, tb = two_curves()
-        self.t = {"c1": ta, "c2": tb}
+        self.t = {"c1": ta, "c2": tb, "c3": third_curve()}
         self.env = {k: ecd.ToyEnv.get(t) for k, t in self.t.items()}
         # the remote key of c1 is chosen so that none of its encodings is a
         # valid key on c2 (by the reference validation): offering c1's bytes
@@ -74,7 +78,10 @@ class World(object):
 
 
 def events():
-    ev = [("set_curve", "c1"), ("set_curve", "c2"), ("set_curve", None)]
+    ev = [("set_curve", "c1"), ("set_curve", "c2"), ("set_curve", None),
+          ("set_curve", "c3"), ("load_private_key", "c3"),
+          ("load_received_public_key", "c3"),
+          ("load_received_public_key_der", "c3")]
     for c in ("c1", "c2"):
         ev += [("load_private_key", c), ("load_private_key_der", c, "ssleay"),
                ("load_private_key_der", c, "pkcs8"),
@@ -258,7 +265,7 @@ def run_event(w, obj, ev):
         pt = bytes(r.to_string())
         d = None
         if env is not None:
-            for cand in (D_LOCAL["c1"], D_LOCAL["c2"], D_GEN):
+            for cand in list(D_LOCAL.values()) + [D_GEN]:
                 if env.pub_bytes(cand) == pt:
                     d = cand
         return ("ok", ("pubkey", c, d))
@@ -294,7 +301,9 @@ def hidden(obj):
     model comparison - a refactoring may add private fields - but part of the
     canonical key of the search, so that states differing only in such a field
     are both expanded"""
-    return tuple(sorted((k, repr(v)[:80]) for k, v in vars(obj).items()
+    import re
+    return tuple(sorted((k, re.sub(r"0x[0-9a-fA-F]+", "0x", repr(v))[:120])
+                        for k, v in vars(obj).items()
                         if k not in ("curve", "private_key", "public_key")))
 
 
@@ -344,7 +353,7 @@ def hist_case(hist):
 _LAST_HIDDEN = [()]
 
 
-def bfs(max_depth):
+def bfs(max_depth, progress=None):
     """explicit-state BFS over canonical model states, every transition
     executed on a fresh real object (history replay)"""
     w = World.get()
@@ -355,7 +364,7 @@ def bfs(max_depth):
     transitions = 0
     viol = []
     depth = 0
-    while frontier and depth < max_depth:
+    while frontier and depth < max_depth and len(seen) < 4000:
         new = []
         for hist in frontier:
             st = init
@@ -365,6 +374,8 @@ def bfs(max_depth):
                 if model_step(w, st, ev) is None:
                     continue
                 transitions += 1
+                if progress is not None:
+                    progress.n = transitions
                 bad = hist_case(hist + [ev])
                 if bad:
                     viol.append((hist + [ev], bad))
@@ -382,8 +393,8 @@ def shard_bfs(arg):
     """the canonical-state BFS as a shard (runs in a forked child so that the
     main process never executes the code under test)"""
     max_depth = arg
-    seen, transitions, viol, depth, fix = bfs(max_depth)
-    sh = Shard()
+    sh = Shard()                 # registered first: the watchdog sees it
+    seen, transitions, viol, depth, fix = bfs(max_depth, sh)
     sh.n = transitions
     sh.nt = len(seen)
     for hist, bad in viol:
